@@ -268,11 +268,11 @@ impl Puback {
 impl Encodable for Puback {
     fn encode<W: io::Write>(&self, writer: &mut W) -> io::Result<()> {
         write_u16(writer, self.pid.value())?;
-        if self.reason_code != PubackReasonCode::Success {
+        if self.properties != PubackProperties::default() {
             write_u8(writer, self.reason_code as u8)?;
-            if self.properties != PubackProperties::default() {
-                self.properties.encode(writer)?;
-            }
+            self.properties.encode(writer)?;
+        } else if self.reason_code != PubackReasonCode::Success {
+            write_u8(writer, self.reason_code as u8)?;
         }
         Ok(())
     }
@@ -422,11 +422,11 @@ impl Pubrec {
 impl Encodable for Pubrec {
     fn encode<W: io::Write>(&self, writer: &mut W) -> io::Result<()> {
         write_u16(writer, self.pid.value())?;
-        if self.reason_code != PubrecReasonCode::Success {
+        if self.properties != PubrecProperties::default() {
             write_u8(writer, self.reason_code as u8)?;
-            if self.properties != PubrecProperties::default() {
-                self.properties.encode(writer)?;
-            }
+            self.properties.encode(writer)?;
+        } else if self.reason_code != PubrecReasonCode::Success {
+            write_u8(writer, self.reason_code as u8)?;
         }
         Ok(())
     }
@@ -576,11 +576,11 @@ impl Pubrel {
 impl Encodable for Pubrel {
     fn encode<W: io::Write>(&self, writer: &mut W) -> io::Result<()> {
         write_u16(writer, self.pid.value())?;
-        if self.reason_code != PubrelReasonCode::Success {
+        if self.properties != PubrelProperties::default() {
             write_u8(writer, self.reason_code as u8)?;
-            if self.properties != PubrelProperties::default() {
-                self.properties.encode(writer)?;
-            }
+            self.properties.encode(writer)?;
+        } else if self.reason_code != PubrelReasonCode::Success {
+            write_u8(writer, self.reason_code as u8)?;
         }
         Ok(())
     }
@@ -707,11 +707,11 @@ impl Pubcomp {
 impl Encodable for Pubcomp {
     fn encode<W: io::Write>(&self, writer: &mut W) -> io::Result<()> {
         write_u16(writer, self.pid.value())?;
-        if self.reason_code != PubcompReasonCode::Success {
+        if self.properties != PubcompProperties::default() {
             write_u8(writer, self.reason_code as u8)?;
-            if self.properties != PubcompProperties::default() {
-                self.properties.encode(writer)?;
-            }
+            self.properties.encode(writer)?;
+        } else if self.reason_code != PubcompReasonCode::Success {
+            write_u8(writer, self.reason_code as u8)?;
         }
         Ok(())
     }
